@@ -149,7 +149,26 @@ theorem dimension_link_object_refused_unchanged_counterexample : ¬ dimension_li
   revert this
   decide
 
+/-- a history of role-link assignments on one owner (any of the eleven setters, any objects, refusals injected at any
+point): the owner's group ends as if the refused assignments had never been made -/
+theorem role_history_skips_refused (h : List (RoleWrite.Arg × String × RoleWrite.Setter))
+    (hall : ∀ c ∈ h, c.2 ∈ Nix.Generated.RoleOrder.all) (f : RoleWrite.File) :
+    runHistory RoleWrite.sys (h.map fun c => (c.1, c.2.2 c.1.kind)) f =
+      runAccepted RoleWrite.sys (h.map fun c => (c.1, c.2.2 c.1.kind)) f := by
+  apply history_skips_refused RoleWrite.sys role_sound (fun _ => rfl)
+  intro c hc
+  obtain ⟨c0, hc0, rfl⟩ := List.mem_map.mp hc
+  exact role_setters_safe c0.2 (hall c0 hc0) c0.1.kind (kind_mem_all c0.1.kind)
+
 /-! ## Non-vacuity -/
+
+/-- non-vacuity: valid extents, a refused re-assignment (array of the other block), a refused one (a number), None -/
+example : runHistory RoleWrite.sys
+    [(⟨.array, .member, false, false, 4, 2⟩, Nix.Generated.RoleOrder.multiTagExtents .array),
+     (foreignArray, Nix.Generated.RoleOrder.multiTagExtents .array),
+     (⟨.other, .member, false, false, 9, 6⟩, Nix.Generated.RoleOrder.multiTagExtents .other)] ⟨none, none, 1⟩ =
+    ⟨some 4, none, 2⟩ := by decide
+
 
 /-- a data frame offered to a tagged feature is refused before anything is written … -/
 example : runSetter featureData ⟨.frame, .member, false, true, 7, 5⟩ ⟨some 3, some false, 1⟩ =
